@@ -654,33 +654,298 @@ def prune_active():
     return "dag_mark_from(" in src or os.environ.get("VERIF_C12_PRUNE") == "1"
 
 
+PRUNE_SMALL_GRAMMAR = "#JSGF V1.0; grammar g; public <g> = go (forward | backward | four) (ten | two | tend) (meters | meter | metres) ;"
+NO_PRUNE = -2000000000
+MAX_LINKS_PRUNE_MODEL = 1500
+# clauses of latticeOKB that every pruned lattice must satisfy (startEnd: whenever a start->end path survives; markerLinks: its
+# EndMarkOK part may legitimately fail after pruning)
+PRUNE_CLAUSES = ["endpoints", "distinct", "markers", "nodeTimes", "linkTimes", "linkGrammar", "startGrammar"]
+
+
 def prune_requests(rng, audios, tier):
-    n = 4 if tier == "quick" else 40
+    """first pass: one request per grammar that prunes nothing (to learn the posteriors)"""
+    gs = PRUNE_GRAMMARS + [PRUNE_SMALL_GRAMMAR]
+    return [dict(grammar=g, audio=audios["goforward"], beams=[NO_PRUNE]) for g in gs]
+
+
+def prune_requests2(rng, first, tier):
+    """second pass: beams derived from the posteriors of the first dump: 0 (everything or nearly), the median, the smallest
+    posterior on the best path (must survive: `<`), that + 1 (must be cut), the return value of lattice_posterior, posteriors of
+    random links and + 1, random beams"""
     reqs = []
-    for i in range(n):
-        g = PRUNE_GRAMMARS[i % len(PRUNE_GRAMMARS)]
-        reqs.append(dict(grammar=g, audio=audios["goforward"], beam=-rng.range(20000, 95000)))
+    for r in first:
+        d = r.get("dump")
+        if r.get("failed") or not d or not d["links"]:
+            continue
+        posts = sorted(l[4] for l in d["links"])
+        beams = [0, posts[len(posts) // 2], d["minbest"], d["minbest"] + 1, d["post_ret"], -rng.range(20000, 95000)]
+        nrand = 2 if tier == "quick" else 12
+        for _ in range(nrand):
+            v = posts[rng.range(0, len(posts) - 1)]
+            beams += [v, v + 1]
+        if tier != "quick":
+            beams += [-1, posts[0], posts[0] + 1, posts[-1], posts[-1] + 1] + [-rng.range(1000, 120000) for _ in range(6)]
+        seen, bl = set(), []
+        for x in beams:
+            if x not in seen and -2000000000 < x < 2000000000:
+                seen.add(x)
+                bl.append(x)
+        reqs.append(dict(grammar=r["grammar"], audio=r["audio"], beams=bl))
     return reqs
+
+
+def req_beams(r):
+    return list(r["beams"]) if "beams" in r else [r["beam"]]
+
+
+def parse_prune_out(out, reqs):
+    """one result per (request, beam): the fields of the `prune` line + the dump block"""
+    lines = out.split("\n")
+    pos, res = 0, []
+    for r in reqs:
+        failed = False
+        for bm in req_beams(r):
+            base = dict(grammar=r["grammar"], audio=r["audio"], beam=bm)
+            if failed:
+                res.append(dict(base, failed=True))
+                continue
+            dump, cur, got = None, None, False
+            while pos < len(lines):
+                w = lines[pos].split()
+                pos += 1
+                if not w:
+                    continue
+                if w[0] == "setup-failed":
+                    failed = True
+                    break
+                if w[0] == "PB":
+                    dump = dict(beam=int(w[1]), nframes=int(w[2]), start=int(w[3]), end=int(w[4]), post_ret=int(w[7]), nodes=[], links=[], g=0, arcs=[],
+                                after={}, complete=False)
+                elif w[0] == "prune":
+                    base.update({k: v for k, v in (t.split("=") for t in w[1:] if "=" in t)})
+                    base["beam"] = bm
+                    got = True
+                    break
+                elif dump is None:
+                    continue
+                elif w[0] == "Pp":
+                    dump["minbest"], dump["bestlen"], dump["best0"] = int(w[1]), int(w[2]), int(w[3])
+                elif w[0] == "Pn":
+                    dump["nodes"].append([int(x) for x in w[1:]])
+                elif w[0] == "Pl":
+                    dump["links"].append([int(x) for x in w[1:]])
+                elif w[0] == "Pg":
+                    dump["g"] = int(w[1])
+                elif w[0] == "Pa":
+                    dump["arcs"].append([int(x) for x in w[1:]])
+                elif w[0] in ("P1", "P2"):
+                    cur = dict(hdr={k: int(v) for k, v in (t.split("=") for t in w[1:])}, n=[], l=[])
+                    dump["after"][w[0][1]] = cur
+                elif w[0] in ("Q1n", "Q2n", "Q1l", "Q2l") and w[0][1] in dump["after"]:
+                    dump["after"][w[0][1]][w[0][2]].append([int(x) for x in w[1:]])
+                elif w[0] == "Pbest":
+                    dump["best1"], dump["want1"] = w[1], w[2]
+                elif w[0] == "PE":
+                    dump["complete"] = True
+            if failed or not got:
+                failed = failed or not got
+                res.append(dict(base, failed=True))
+                continue
+            if dump is not None and dump["complete"]:
+                base["dump"] = dump
+            res.append(base)
+    return res
+
+
+def prune_audio(a):
+    """replay files name the audio relative to the repository (or by a path of the tree they were found on)"""
+    if os.path.isabs(a) and os.path.exists(a):
+        return a
+    if not os.path.isabs(a) and (vlib.REPO / a).exists():
+        return str(vlib.REPO / a)
+    return str(vlib.REPO / "tests" / "data" / os.path.basename(a))
+
+
+def prune_audio_rel(a):
+    try:
+        return os.path.relpath(a, str(vlib.REPO)) if os.path.isabs(a) and os.path.commonpath([a, str(vlib.REPO)]) == str(vlib.REPO) else a
+    except ValueError:
+        return a
 
 
 def run_prune(reqs):
     binp = vlib.build_harness("h_c12p")
-    inp = "\n".join(f"{r['grammar'].encode().hex()} {r['audio']} {r['beam']}" for r in reqs) + "\n"
+    inp = "\n".join(f"{r['grammar'].encode().hex()} {prune_audio(r['audio'])} {','.join(str(b) for b in req_beams(r))}" for r in reqs) + "\n"
     rc, out, err = vlib.run_bin(binp, args=[str(vlib.REPO / "model" / "en-us")], stdin_text=inp, leaks=True, timeout=900)
-    lines = [l for l in out.split("\n") if l.startswith("prune ") or l.startswith("setup-failed")]
-    res = []
-    for r, l in zip(reqs, lines):
-        w = l.split()
-        res.append(dict(r, **({k: v for k, v in (t.split("=") for t in w[1:] if "=" in t)} if w[0] == "prune" else {"failed": True})))
-    return rc, res, err
+    return rc, parse_prune_out(out, reqs), err
 
 
-def judge_prune(c, rc, res, reqs, err, stats):
+def prune_driver_block(nframes, start, end, nodes, links, g, arcs, beam):
+    return [f"begin {nframes} {start} {end}"] + ["n " + " ".join(str(x) for x in n) for n in nodes] + \
+           ["l " + " ".join(str(x) for x in l) for l in links] + [f"g {g}"] + ["a " + " ".join(str(x) for x in a) for a in arcs] + \
+           [f"run {beam}", "reset"]
+
+
+def run_prune_driver(blocks):
+    """ssdriver c12p on a list of blocks; one report per block (None where the driver said bad-input)"""
+    if not blocks:
+        return 0, [], ""
+    rc, out, err = vlib.run_driver("c12p", "\n".join(l for b in blocks for l in b) + "\n", timeout=900)
+    reps, cur = [], None
+    for line in out.split("\n"):
+        w = line.split()
+        if not w:
+            continue
+        if cur is None:
+            cur = dict(k=[])
+        if w[0] == "end":
+            reps.append(cur if "ret" in cur else None)
+            cur = None
+        elif w[0] == "k":
+            cur["k"].append([int(x) for x in w[1:]])
+        elif w[0] in ("before", "clauses", "second", "direct", "model") and (len(w) == 1 or "=" in w[1]):
+            cur[w[0]] = {k: int(v) for k, v in (t.split("=") for t in w[1:])}
+        elif w[0] == "direct":
+            cur["direct"] = None
+        elif w[0] == "nodes":
+            cur["nodes"] = [int(x) for x in w[1:]]
+        elif w[0] == "ends":
+            cur["ends"] = [int(w[1]), int(w[2])]
+        elif w[0] in ("ret", "best"):
+            cur[w[0]] = w[1]
+    return rc, reps, err
+
+
+def prune_tie(r, tie, stats):
+    """diff of one C dump against the model report(s); returns a list of (what, found_input)"""
+    d, out = r["dump"], []
+    rep, repc = r.get("rep"), r.get("repc")
+    a1, a2 = d["after"].get("1"), d["after"].get("2")
+    beam, links = r["beam"], d["links"]
+
+    def bump(k):
+        stats[k] = stats.get(k, 0) + 1
+    if a1 is None or a2 is None:
+        return [("the harness dump is incomplete", False)]
+    # ---- the implementation's own output (oracle, no model involved)
+    for tag, a in (("first", a1), ("second", a2)):
+        if a["hdr"]["idmis"] or a["hdr"]["listmis"]:
+            out.append((f"after the {tag} lattice_posterior_prune({beam}): {a['hdr']['idmis']} nodes whose id is not their list position, "
+                        f"{a['hdr']['listmis']} exit/entry list elements without counterpart (or links to nodes outside the node list)", True))
+    below = sum(1 for l in links if l[4] < beam)
+    tie["ret_checked"] += 1
+    if a1["hdr"]["ret"] != below:
+        out.append((f"C12_prune_return_value: lattice_posterior_prune({beam}) returned {a1['hdr']['ret']}, {below} of {len(links)} links have "
+                    f"alpha + beta - norm < beam", True))
+    tie["idem_checked"] += 1
+    if a2["hdr"]["ret"] != 0 or a2["n"] != a1["n"] or a2["l"] != a1["l"] or (a2["hdr"]["start"], a2["hdr"]["end"]) != (a1["hdr"]["start"], a1["hdr"]["end"]):
+        out.append((f"C12_prune_idempotent: a second lattice_posterior_prune({beam}) (same alpha/beta/norm) returned {a2['hdr']['ret']} and left "
+                    f"{len(a2['n'])} nodes / {len(a2['l'])} links, the first left {len(a1['n'])} / {len(a1['l'])}", True))
+    survives = d["want1"] != "none"
+    if not survives:
+        tie["allcut_checked"] += 1
+        want_nodes = sorted({d["start"], d["end"]})
+        if [x[0] for x in a1["n"]] != want_nodes or a1["l"] or d["best1"] != "none":
+            out.append((f"C12_prune_all_paths_cut: no start->end path survives lattice_posterior_prune({beam}) but the lattice keeps nodes "
+                        f"{[x[0] for x in a1['n']][:12]} and {len(a1['l'])} links (bestpath {d['best1']})", True))
+    if d["minbest"] >= beam:
+        tie["bestkept_checked"] += 1
+        if d["best1"] != str(d["best0"]):
+            out.append((f"C12_prune_bestpath_preserved: every link of the best path has alpha + beta - norm >= {beam} (min {d['minbest']}) but "
+                        f"lattice_bestpath returns {d['best1']} after pruning, {d['best0']} before", True))
+    if beam <= d["post_ret"]:
+        bump("prune:beam<=posterior-of-the-best-path")
+        if d["minbest"] < beam:
+            bump("prune:beam<=posterior-of-the-best-path-but-a-link-of-it-is-below-the-beam(integer rounding)")
+    # ---- model = implementation
+    if rep is None or repc is None:
+        if len(links) <= MAX_LINKS_PRUNE_MODEL:
+            out.append(("ssdriver c12p gave no report for the dumped lattice", False))
+        return out
+    tie["compared"] += 1
+    tie["before_ok"] += 1 if rep["before"].get("ok") == 1 else 0
+    if rep["before"].get("ok") != 1:
+        tie["before_bad"].append(dict(beam=beam, clauses=rep["before"]))
+    mm = []
+    if int(rep["ret"]) != a1["hdr"]["ret"]:
+        mm.append(f"return value: model {rep['ret']}, C {a1['hdr']['ret']}")
+    if rep["nodes"] != [x[0] for x in a1["n"]] or any(x[1] != i for i, x in enumerate(a1["n"])):
+        mm.append(f"surviving nodes (old positions, in order): model {rep['nodes'][:40]}, C (position, id) {a1['n'][:40]}")
+    if rep["k"] != a1["l"]:
+        firstbad = next((i for i, (x, y) in enumerate(zip(rep["k"], a1["l"])) if x != y), min(len(rep["k"]), len(a1["l"])))
+        mm.append(f"links (old src, old dst, src id, dst id, ef, ascr): model {len(rep['k'])}, C {len(a1['l'])}; first difference at {firstbad}: "
+                  f"model {rep['k'][firstbad:firstbad + 3]}, C {a1['l'][firstbad:firstbad + 3]}")
+    if rep["ends"] != [a1["hdr"]["start"], a1["hdr"]["end"]]:
+        mm.append(f"start/end ids: model {rep['ends']}, C {[a1['hdr']['start'], a1['hdr']['end']]}")
+    c_idem = a2["hdr"]["ret"] == 0 and a2["n"] == a1["n"] and a2["l"] == a1["l"]
+    if bool(rep["second"]["same"]) != c_idem or rep["second"]["ret"] != a2["hdr"]["ret"]:
+        mm.append(f"second prune: model {rep['second']}, C returned {a2['hdr']['ret']}, same lattice: {c_idem}")
+    if rep["best"] != d["best1"]:
+        mm.append(f"best path after pruning: model bestpath {rep['best']}, lattice_bestpath {d['best1']} (independent maximum {d['want1']})")
+    # the model run on the C lattice AFTER pruning: nothing more to prune
+    if int(repc["ret"]) != a2["hdr"]["ret"] or bool(repc["second"]["same"]) != c_idem or (c_idem and repc["nodes"] != list(range(len(a1["n"])))):
+        mm.append(f"model on the C lattice after pruning: ret {repc['ret']} nodes kept {len(repc['nodes'])} of {len(a1['n'])}; C second prune returned {a2['hdr']['ret']}")
+    if repc["best"] != d["best1"]:
+        mm.append(f"model bestpath on the C lattice after pruning {repc['best']}, lattice_bestpath {d['best1']}")
+    for t in mm:
+        out.append(("model posteriorPrune != lattice_posterior_prune: " + t, False))
+    for rr in (rep, repc):
+        tie["modelruns"] = tie.get("modelruns", 0) + 1
+        if not rr.get("model") or not all(rr["model"].values()):
+            out.append((f"the old node/link numbers printed by the driver (fastPrune) do not reproduce the lattice of the model's posteriorPruneFast: {rr.get('model')}", False))
+    for dd in (rep.get("direct"), repc.get("direct")):
+        if dd is not None:
+            tie["direct"] += 1
+            if not all(dd.values()):
+                out.append((f"the driver's shared evaluation (fastPrune) differs from the model's posteriorPrune / keepOrder / keptLinks / exitsLoop: {dd}", False))
+    # ---- clauses of latticeOKB on the C lattice after pruning (driver: `before` of the block built from the C dump)
+    cl = repc["before"]
+    for name, v in cl.items():
+        if name != "ok" and v == 1:
+            tie["clauses"][name] = tie["clauses"].get(name, 0) + 1
+    tie["clause_lattices"] += 1
+    tie["with_path"] += 1 if survives else 0
+    bad = [n for n in PRUNE_CLAUSES if cl.get(n) != 1] + (["startEnd"] if survives and cl.get("startEnd") != 1 else [])
+    if bad:
+        out.append((f"after lattice_posterior_prune({beam}) the lattice violates the clauses {bad} of latticeOKB "
+                    f"({'a' if survives else 'no'} start->end path survives)", True))
+    return out
+
+
+def judge_prune(c, rc, res, reqs, err, stats, tie=None):
     viols = []
-    if rc != 0 or len(res) != len(reqs):
+    if tie is None:
+        tie = {}
+    for k in ("compared", "before_ok", "ret_checked", "idem_checked", "allcut_checked", "bestkept_checked", "direct", "clause_lattices", "with_path", "dumps"):
+        tie.setdefault(k, 0)
+    tie.setdefault("clauses", {})
+    tie.setdefault("before_bad", [])
+    tie.setdefault("mismatch", [])
+    if rc != 0 or len(res) != sum(len(req_beams(r)) for r in reqs):
         viols.append(dict(kind="sanitizer report, abort or exit in lattice_posterior_prune / lattice_bestpath", rc=rc, stderr=err[-2000:],
                           case_raw=dict(prune=reqs)))
         return viols
+    # model runs: the lattice before pruning, and the C lattice after pruning (posterior of a link = the one of its original)
+    blocks, owner = [], []
+    for r in res:
+        d = r.get("dump")
+        if r.get("failed") or not d or "1" not in d["after"] or len(d["links"]) > MAX_LINKS_PRUNE_MODEL or "minbest" not in d:
+            continue
+        blocks.append(prune_driver_block(d["nframes"], d["start"], d["end"], d["nodes"], d["links"], d["g"], d["arcs"], r["beam"]))
+        owner.append((r, "rep"))
+        a1 = d["after"]["1"]
+        pmap = {(l[0], l[1]): l[4] for l in d["links"]}
+        oknodes = all(0 <= x[0] < len(d["nodes"]) for x in a1["n"])
+        if oknodes and all(min(l[:4]) >= 0 for l in a1["l"]) and a1["hdr"]["start"] >= 0 and a1["hdr"]["end"] >= 0:
+            blocks.append(prune_driver_block(d["nframes"], a1["hdr"]["start"], a1["hdr"]["end"], [d["nodes"][x[0]] for x in a1["n"]],
+                                             [[l[2], l[3], l[4], l[5], pmap.get((l[0], l[1]), 0)] for l in a1["l"]], d["g"], d["arcs"], r["beam"]))
+            owner.append((r, "repc"))
+    drc, reps, derr = run_prune_driver(blocks)
+    if drc != 0 or len(reps) != len(blocks):
+        tie["mismatch"].append(dict(driver_rc=drc, stderr=derr[-1500:], reports=len(reps), blocks=len(blocks)))
+    else:
+        for (r, key), rep in zip(owner, reps):
+            r[key] = rep
     for r in res:
         stats["prune:requests"] = stats.get("prune:requests", 0) + 1
         if r.get("failed") or "best" not in r:
@@ -689,15 +954,64 @@ def judge_prune(c, rc, res, reqs, err, stats):
             stats["prune:lattices-with-nodes-that-lost-all-entries"] = stats.get("prune:lattices-with-nodes-that-lost-all-entries", 0) + 1
         if int(r.get("pruned", 0)) > 0 and r["want"] != "none":
             stats["prune:partially-pruned-lattices-with-a-remaining-path"] = stats.get("prune:partially-pruned-lattices-with-a-remaining-path", 0) + 1
+        if r["want"] == "none":
+            stats["prune:lattices-where-no-path-survives"] = stats.get("prune:lattices-where-no-path-survives", 0) + 1
+        raw = dict(prune=[dict(grammar=r["grammar"], audio=prune_audio_rel(r["audio"]), beam=r["beam"])])
+        case = dict(grammar=r["grammar"], audio="tests/data/goforward.raw", calls="lattice_bestpath(0.05), lattice_posterior(0.05), "
+                    f"lattice_posterior_prune({r['beam']}), lattice_bestpath(0.05), lattice_posterior_prune({r['beam']})")
         if r["best"] != r["want"]:
             viols.append(dict(kind="lattice search results violate C12",
                               what=f"after lattice_posterior_prune(beam={r['beam']}) ({r['pruned']} of {r['links_before']} links pruned, {r['orphans']} nodes without "
                                    f"entries left) lattice_bestpath returns {r['best']}, the best remaining start->end path has score {r['want']}",
-                              case=dict(grammar=r["grammar"], audio="tests/data/goforward.raw", calls="lattice_bestpath(0.05), lattice_posterior(0.05), "
-                                        f"lattice_posterior_prune({r['beam']}), lattice_bestpath(0.05)"),
-                              case_raw=dict(prune=[dict(grammar=r["grammar"], audio=r["audio"], beam=r["beam"])]),
+                              case=case, case_raw=raw, _key="bestpath-after-posterior-prune",
                               how_to_rerun="VERIF_C12_PRUNE=1 python3 tools/check.py C12 --replay <this file>"))
+        if r.get("dump"):
+            tie["dumps"] += 1
+            for (what, found) in prune_tie(r, tie, stats):
+                if not found:
+                    tie["mismatch"].append(dict(beam=r["beam"], grammar=r["grammar"], what=what))
+                viols.append(dict(kind="lattice search results violate C12" if found else "correspondence model = implementation fails (pruning)",
+                                  what=what, case=case, case_raw=raw, _found=found,
+                                  links_before=len(r["dump"]["links"]), nodes_before=len(r["dump"]["nodes"]),
+                                  how_to_rerun="python3 tools/check.py C12 --replay <this file>"))
     return viols
+
+
+def report_prune(c, pv, limit=4):
+    """violations of the prune family: one per class (text before the first digit), implementation-side ones first"""
+    seen, n = set(), 0
+    for obj in sorted(pv, key=lambda o: not o.get("_found", True)):
+        what = obj.get("what", obj["kind"])
+        cls = "".join(ch for ch in ":".join(what.split(":")[:2 if what.startswith("model posteriorPrune") else 1])[:70] if not ch.isdigit())
+        if cls in seen or n >= limit:
+            continue
+        seen.add(cls)
+        n += 1
+        o2 = {k: v for k, v in obj.items() if not k.startswith("_")}
+        c.violation(o2, obj.get("_found", True), finding_key=obj.get("_key"))
+
+
+def prune_obligations(c, tie, pv, nreq):
+    c.oblige("pruned lattices: lattice_bestpath after lattice_posterior_prune returns the best remaining start->end path (harness h_c12p)",
+             not any(o.get("_key") for o in pv), f"{sum(1 for o in pv if o.get('_key'))} of {nreq} requests")
+    c.oblige("hypothesis LatticeOK of the pruning theorems: latticeOKB holds on every lattice dumped before lattice_posterior_prune",
+             tie["compared"] > 0 and tie["before_ok"] == tie["compared"], dict(lattices=tie["compared"], ok=tie["before_ok"], bad=tie["before_bad"][:2]))
+    c.oblige("correspondence: posteriorPrune of the model = lattice_posterior_prune on every dumped lattice: return value, surviving nodes (list order, "
+             "id = position), links (exit lists in node order: endpoints, ef, ascr), start/end, result of a second call, best path afterwards",
+             tie["compared"] > 0 and not tie["mismatch"], dict(compared=tie["compared"], mismatches=tie["mismatch"][:3]))
+    c.oblige("the lattice and return value the driver prints are those of the model's posteriorPruneFast (= posteriorPrune by posteriorPruneFast_eq) on "
+             "every run; the old numbers of the surviving nodes/links it prints reproduce that lattice; on the small lattices (<= 40 links) they also agree "
+             "with the model's proof-side posteriorPrune / keepOrder / keptLinks, and exitsLoop = exitsCut", tie["direct"] > 0 and not any("fastPrune" in m.get("what", "") for m in tie["mismatch"]),
+             dict(direct_runs=tie["direct"], model_runs=tie.get("modelruns", 0)))
+    impl = [o for o in pv if o.get("_found") is True]
+    c.oblige("oracle on the implementation's pruned lattices: clauses endpoints, distinct, markers, nodeTimes, linkTimes, linkGrammar, startGrammar "
+             "of latticeOKB on every pruned lattice and startEnd whenever a path survives; ids = positions and exit/entry lists consistent; "
+             "return value = number of links below the beam (C12_prune_return_value); a second call returns 0 and changes nothing (C12_prune_idempotent); "
+             "only start and end left when no path survives (C12_prune_all_paths_cut); best path unchanged when all its links are at or above the "
+             "beam (C12_prune_bestpath_preserved)", tie["dumps"] > 0 and not impl,
+             dict(dumps=tie["dumps"], violations=[o["what"] for o in impl][:3], clause_lattices=tie["clause_lattices"], with_path=tie["with_path"],
+                  clauses_holding=tie["clauses"], return_value=tie["ret_checked"], idempotent=tie["idem_checked"], all_paths_cut=tie["allcut_checked"],
+                  best_path_kept=tie["bestkept_checked"]))
 
 
 def describe(case):
@@ -857,12 +1171,19 @@ def check(c):
             break
     if prune_active():
         reqs = prune_requests(rng, audios, c.tier)
+        tie = {}
         prc, pres, perr = run_prune(reqs)
-        pv = judge_prune(c, prc, pres, reqs, perr, stats)
-        for obj in pv[:2]:
-            c.violation(obj, True, finding_key="bestpath-after-posterior-prune")
-        c.oblige("pruned lattices: lattice_bestpath after lattice_posterior_prune returns the best remaining start->end path (harness h_c12p)",
-                 not pv, f"{len(pv)} of {len(reqs)} requests")
+        pv = judge_prune(c, prc, pres, reqs, perr, stats, tie)
+        reqs2 = prune_requests2(rng, pres, c.tier) if prc == 0 else []
+        if reqs2:
+            prc2, pres2, perr2 = run_prune(reqs2)
+            pv += judge_prune(c, prc2, pres2, reqs2, perr2, stats, tie)
+        report_prune(c, pv)
+        prune_obligations(c, tie, pv, len(reqs) + sum(len(r["beams"]) for r in reqs2))
+        for k in ("compared", "dumps", "direct", "with_path"):
+            stats[f"prune:tie:{k}"] = tie[k]
+        for k, v in tie["clauses"].items():
+            stats[f"prune:clause-holds-after-pruning:{k}"] = v
     else:
         stats["prune:family-not-run(the tree lacks the D82 repair; VERIF_C12_PRUNE=1 runs it)"] = 1
     viols.sort(key=lambda v: (not v[0],))
@@ -909,8 +1230,11 @@ def replay(c, path):
     case = obj["case_raw"]
     if "prune" in case:
         prc, pres, perr = run_prune(case["prune"])
-        for o2 in judge_prune(c, prc, pres, case["prune"], perr, {}):
-            c.violation(o2, True, finding_key="bestpath-after-posterior-prune")
+        tie = {}
+        pv = judge_prune(c, prc, pres, case["prune"], perr, {}, tie)
+        report_prune(c, pv, limit=8)
+        for mmm in tie["mismatch"][:3]:
+            c.oblige("correspondence model = implementation (pruning)", False, mmm)
         c.cov.update({"evaluations": len(case["prune"]), "distinct_nontrivial": len(case["prune"])})
         return
     res, fail = eval_case(c, binp, audios, case, {})
